@@ -11,6 +11,15 @@ TR = ('the ast translator tools/tr_poses.py + symx.py (validated on every run by
       'inside Coq against the implementation); numpy float64 = IEEE binary64; numpy sin/cos values taken as given. ')
 
 CLAIMS = {
+    'C01': ('proof',
+            'Theorem C01 (coq/props/C01.v): for all 8 edge kinds (odometry R2/R3/SE2/SE3, landmark SE2->R2, SE3->R3, Rn->Rn with any '
+            'offset) and both vertices, the matrix calc_jacobians returns (program regenerated from the source) applied to any tangent '
+            'direction u equals the derivative at 0 of every error component along vertex [+] t u -- proved by a chain-rule argument over the '
+            'regenerated stages with the C10 tangent identities; SE(3)/R^n: no hypothesis on operands at all (any quaternion, w<0, 180 deg); '
+            'SE(2): vertex angle in range and the wrapped angles of the stages not exactly at the wrap (the property excludes only the outer '
+            'one; the two extra measure-zero sets are covered by the finite-difference oracle only -- stated in the evidence).',
+            AX + TR + 'tools/tr_edges.py likewise validated by the PrimFloat correspondence of the edge programs. np.dot = textbook matrix product. Theorem over exact reals.',
+            'Coq proof (chain rule over regenerated staged programs, dual numbers + ring) + PrimFloat correspondence'),
     'C09': ('proof',
             'Theorem C09 (coq/props/C09.v): for the pose model regenerated from pose/*.py on every run, (+) is the product of homogeneous '
             'matrices / Hamilton product of an independently written specification (lib/Spec.v), a (-) b = b^-1 (+) a, inverse and identity are '
